@@ -141,7 +141,7 @@ impl Check for C14 {
         "E2: one server host (real datacake-rpc Server, handler logs executions per request id, optional handler delay) and one client host (real RpcClient/Channel) over simulated TCP with timed hold/release, partition/repair (also mid-stream) and server kill+restart"
     }
     fn rule(&self) -> &'static str {
-        "Cases: 2-14 waves of 1-12 concurrent requests with unique ids, payloads 0-20 KiB, handler delays 0-600 ms, per-request client timeouts 30-2500 ms or none (the configured client used directly or through a clone), several clients sharing one Channel (first use raced) or a fresh Channel per wave; 0-8 fault events at seeded times: link hold/release, partition/repair (segments of established streams are dropped), server kill+restart. Oracle over the recorded results: each is Ok(f(id, payload size)) carrying its own id, or ConnectionError/Timeout; the handler ran at most once per id and at least once for every Ok; a request with client timeout T returned within T + 2 ms; nothing panics. Requests without a timeout that are black-holed are abandoned by the harness after 30 simulated s (allowed). Non-trivial = a fault event lies between the first and last wave and >= 2 requests overlapped. Distinct = hash of the result-kind sequence."
+        "Cases: 2-14 waves of 1-12 concurrent requests with unique ids, payloads 0-20 KiB (one case in seven: also 64-900 KiB, several HTTP/2 flow-control windows), handler delays 0-600 ms, per-request client timeouts 30-2500 ms or none (the configured client used directly or through a clone), several clients sharing one Channel (first use raced) or a fresh Channel per wave; 0-8 fault events at seeded times: link hold/release, partition/repair (segments of established streams are dropped), server kill+restart. Oracle over the recorded results: each is Ok(f(id, payload size)) carrying its own id, or ConnectionError/Timeout; the handler ran at most once per id and at least once for every Ok; a request with client timeout T returned within T + 2 ms; nothing panics. Requests without a timeout that are black-holed are abandoned by the harness after 30 simulated s (allowed). Non-trivial = a fault event lies between the first and last wave and >= 2 requests overlapped. Distinct = hash of the result-kind sequence."
     }
     fn assumptions(&self) -> Vec<String> {
         vec![
@@ -161,6 +161,8 @@ impl Check for C14 {
     fn generate(&self, seed: u64, idx: u64, _tier: Tier) -> Value {
         let mut rng = rng_from(case_seed(seed, idx));
         let waves = rng.gen_range(2..=14);
+        // one case in seven also sends large messages (several HTTP/2 flow-control windows)
+        let large = rng.gen_bool(1.0 / 7.0);
         let mut events = Vec::new();
         let mut t = rng.gen_range(0..50);
         for w in 0..waves {
@@ -170,6 +172,7 @@ impl Check for C14 {
                     pad: match rng.gen_range(0..5) {
                         0 => 0,
                         1 => rng.gen_range(0..20_000),
+                        2 if large => rng.gen_range(66_000..900_000),
                         _ => rng.gen_range(0..400),
                     },
                     delay_ms: if rng.gen_bool(0.3) { rng.gen_range(1..600) } else { 0 },
